@@ -8,3 +8,4 @@ pub mod merge;
 pub mod oracle;
 pub mod props;
 pub mod selftest;
+pub mod fuzz;
